@@ -83,7 +83,7 @@ def any_value(S, comments=False, std=True):
     return st.recursive(leaf, ext, max_leaves=10)
 
 
-COMMENT_ALPHABET = ['a', 'bb', ' ', '\n', '#', "'", '"', '(', ')', '[', ',', ':', '\\', 'é']
+COMMENT_ALPHABET = ['a', 'bb', ' ', '\n', '#', "'", '"', '(', ')', '[', ',', ':', '\\', 'é', '\r', '\r\n', '\x0c', '\x0b', '\u2028', '\x85']
 
 
 def comment_text(S):
